@@ -5,8 +5,9 @@ import Restli.Model.D2
 * `d2fold <zk-hex> (<event>…) [(<event>…)]` — runs the heap-level model from a fresh watcher over
   the history and answers `<ptrs> <snapshot>`: `ptrs` has one letter per event (`s` = the same
   pointer was returned, `n` = a new object), `snapshot` is the final content, canonically sorted.
-  With the optional second list it also answers, after ` | `, the same for the history extended by
-  each single event of that list (used for exhaustive enumeration without one round trip per
+  With the optional second list (and an optional number of levels `k`, default 1) it also
+  answers, separated by ` | `, the same for every extension of the history by 1…k events of that
+  list, in depth-first pre-order (used for exhaustive enumeration without one round trip per
   history).
   `<event>` is `(<path-hex> del)`, `(<path-hex> bad)` or `(<path-hex> uri (<scheme-hex> <rest-hex> <w>)…)`.
 * `d2choose ((<node-hex> (<scheme-hex> <rest-hex> <w>)…)…) (<scheme-hex>…) <p> <q>` — `chooseHost`
@@ -32,13 +33,21 @@ def eventOfSexp : Sexp → Option Event
     pure ⟨p', some (.uri ⟨es'⟩)⟩
   | _ => none
 
+def hexChars : Array Char := #['0','1','2','3','4','5','6','7','8','9','a','b','c','d','e','f']
+
+/-- same output as `toHex`, built by pushing onto a `String` (the exhaustive enumeration renders
+millions of snapshots) -/
+def fastHex (b : Bytes) : String :=
+  if b.isEmpty then "-"
+  else b.foldl (fun s c => (s.push (hexChars.getD (c.toNat / 16) '?')).push (hexChars.getD (c.toNat % 16) '?')) ""
+
 def sortStrings (l : List String) : List String := l.mergeSort (fun a b => !(decide (b < a)))
 
 def renderEntry (e : Entry) : String :=
-  "(" ++ toHex e.1.scheme ++ " " ++ toHex e.1.rest ++ " " ++ toString e.2 ++ ")"
+  "(" ++ fastHex e.1.scheme ++ " " ++ fastHex e.1.rest ++ " " ++ toString e.2 ++ ")"
 
 def renderNode (kv : Bytes × Uri) : String :=
-  "(" ++ " ".intercalate (toHex kv.1 :: sortStrings (kv.2.weights.map renderEntry)) ++ ")"
+  "(" ++ " ".intercalate (fastHex kv.1 :: sortStrings (kv.2.weights.map renderEntry)) ++ ")"
 
 def renderSnapshot (s : ServiceUris) : String :=
   "(" ++ " ".intercalate (sortStrings (s.uris.map renderNode)) ++ ")"
@@ -51,25 +60,39 @@ def runTrace (H : Heap) (a : Nat) : List Event → List Char → Option (Heap ×
     | none => none
     | some (H', a') => runTrace H' a' h ((if a' == a then 's' else 'n') :: acc)
 
-def renderRun (zk : Bytes) (h : List Event) : String :=
-  match runTrace ⟨[ServiceUris.init zk]⟩ 0 h [] with
+def renderState (H : Heap) (a : Nat) (revTrace : List Char) : String :=
+  match H.get? a with
   | none => "panic"
-  | some (H, a, tr) =>
-    match H.get? a with
-    | none => "panic"
-    | some s => (if tr.isEmpty then "-" else String.ofList tr) ++ " " ++ renderSnapshot s
+  | some s => (if revTrace.isEmpty then "-" else String.ofList revTrace.reverse) ++ " " ++ renderSnapshot s
+
+/-- all extensions by 1…k events of `exts`, depth-first pre-order, continuing from the state
+reached so far (the heap model is run incrementally) -/
+def expand (exts : List Event) : Nat → Heap → Nat → List Char → List String
+  | 0, _, _, _ => []
+  | k + 1, H, a, tr =>
+    exts.flatMap (fun e =>
+      match handleUriUpdateH H a e with
+      | none => ["panic"]
+      | some (H', a') =>
+        let tr' := (if a' == a then 's' else 'n') :: tr
+        renderState H' a' tr' :: expand exts k H' a' tr')
 
 def opFold (args : List Sexp) : String :=
-  match args with
-  | [.atom zk, .list evs] =>
-    match ofHex zk, evs.mapM eventOfSexp with
-    | some zk', some h => renderRun zk' h
-    | _, _ => "bad-op"
-  | [.atom zk, .list evs, .list exts] =>
+  let go (zk : String) (evs : List Sexp) (exts : List Sexp) (levels : Nat) : String :=
     match ofHex zk, evs.mapM eventOfSexp, exts.mapM eventOfSexp with
     | some zk', some h, some xs =>
-      " | ".intercalate (renderRun zk' h :: xs.map (fun x => renderRun zk' (h ++ [x])))
+      match runTrace ⟨[ServiceUris.init zk']⟩ 0 h [] with
+      | none => "panic"
+      | some (H, a, tr) =>
+        " | ".intercalate (renderState H a tr.reverse :: expand xs levels H a tr.reverse)
     | _, _, _ => "bad-op"
+  match args with
+  | [.atom zk, .list evs] => go zk evs [] 0
+  | [.atom zk, .list evs, .list exts] => go zk evs exts 1
+  | [.atom zk, .list evs, .list exts, .atom k] =>
+    match k.toNat? with
+    | some k' => if k' ≤ 3 then go zk evs exts k' else "bad-op"
+    | none => "bad-op"
   | _ => "bad-op"
 
 def nodeOfSexp : Sexp → Option (Bytes × Uri)
